@@ -57,6 +57,15 @@ def objectify(v, methods_for):
     return v
 
 
+_SUB = {}
+
+
+def _resolver_error_subclass(base):
+    if base not in _SUB:
+        _SUB[base] = type("NotFoundError", (type("ApplicationError", (base,), {}),), {})
+    return _SUB[base]
+
+
 def make_resolver(tn, fd, wrap=None, methods_for=None):
     from py_gql.exc import ResolverError
 
@@ -67,7 +76,7 @@ def make_resolver(tn, fd, wrap=None, methods_for=None):
         if tl is not None:
             tl.append(("call", tuple(path)))
         if tuple(path) in ctx.boom_paths:
-            raise RX.Boom(tuple(path))
+            raise RX.boom_for(path)
         b = ctx.behaviour(tn, fd, path, args)
         if tl is not None:
             tl.append(("ret", tuple(path)))
@@ -76,7 +85,9 @@ def make_resolver(tn, fd, wrap=None, methods_for=None):
             if isinstance(ext, dict) and ext.get("code", 0) % 2:
                 import types
                 ext = types.MappingProxyType(ext)   # `extensions` is declared as a Mapping: a read-only view is one
-            raise ResolverError(b[1], extensions=ext)
+            # applications subclass ResolverError (its documentation invites it): every other error is of a subclass
+            cls = ResolverError if len(b[1]) % 2 else _resolver_error_subclass(ResolverError)
+            raise cls(b[1], extensions=ext)
         return objectify(b[1], methods_for) if methods_for else b[1]
 
     resolver.__name__ = "resolve_%s_%s" % (tn, fd["name"])
